@@ -20,21 +20,22 @@ Section RouterProofs.
   Variables Sig Act St Ev : Type.
   Variable sig_eqb : Sig -> Sig -> bool.
   Variable sig_of : Act -> Sig.
+  Variable is_reject : Ev -> bool.
 
   Notation disp := (disp Sig Act St Ev).
   Notation result := (result St Ev).
   Notation cache := (cache Sig).
   Notation includes := (includes Sig Act St Ev sig_eqb).
-  Notation call_d := (call_d Sig Act St Ev sig_eqb sig_of).
+  Notation call_d := (call_d Sig Act St Ev sig_eqb sig_of is_reject).
   Notation run_next := (run_next Sig Act St Ev).
-  Notation run_idx := (run_idx Sig Act St Ev sig_eqb sig_of).
-  Notation run_scan := (run_scan Sig Act St Ev sig_eqb sig_of).
+  Notation run_idx := (run_idx Sig Act St Ev sig_eqb sig_of is_reject).
+  Notation run_scan := (run_scan Sig Act St Ev sig_eqb sig_of is_reject).
   Notation run_client := (run_client Act St Ev).
   Notation lookup := (lookup Sig sig_eqb).
   Notation put := (put Sig).
-  Notation dispatch_c := (dispatch_c Sig Act St Ev sig_eqb sig_of).
-  Notation dispatch_nc := (dispatch_nc Sig Act St Ev sig_eqb sig_of).
-  Notation answer_nc := (answer_nc Sig Act St Ev sig_eqb sig_of).
+  Notation dispatch_c := (dispatch_c Sig Act St Ev sig_eqb sig_of is_reject).
+  Notation dispatch_nc := (dispatch_nc Sig Act St Ev sig_eqb sig_of is_reject).
+  Notation answer_nc := (answer_nc Sig Act St Ev sig_eqb sig_of is_reject).
   Notation filter_from := (filter_from Sig Act St Ev sig_eqb).
   Notation filter_idx := (filter_idx Sig Act St Ev sig_eqb).
   Notation Coh := (Coh Sig Act St Ev sig_eqb).
@@ -42,10 +43,10 @@ Section RouterProofs.
   Notation router := (router Sig Act St Ev).
   Notation rop := (rop Sig Act St Ev).
   Notation install := (install Sig Act St Ev).
-  Notation dispatch := (dispatch Sig Act St Ev sig_eqb sig_of).
-  Notation run_ops := (run_ops Sig Act St Ev sig_eqb sig_of).
-  Notation serve_c := (serve_c Sig Act St Ev sig_eqb sig_of).
-  Notation serve_nc := (serve_nc Sig Act St Ev sig_eqb sig_of).
+  Notation dispatch := (dispatch Sig Act St Ev sig_eqb sig_of is_reject).
+  Notation run_ops := (run_ops Sig Act St Ev sig_eqb sig_of is_reject).
+  Notation serve_c := (serve_c Sig Act St Ev sig_eqb sig_of is_reject).
+  Notation serve_nc := (serve_nc Sig Act St Ev sig_eqb sig_of is_reject).
   Notation built := (built Sig Act St Ev).
   Notation calls := (calls Sig Act St Ev).
   Notation new_router := (new_router Sig Act St Ev).
@@ -111,7 +112,9 @@ Section RouterProofs.
         destruct (call_d X1 rt1 b x1 a st) as [y1 o1].
         destruct (call_d X2 rt2 b x2 a st) as [y2 o2]. cbn [fst snd] in R', E. subst o2.
         destruct o1 as [[st1 ev1]|].
-        + apply next_sim; assumption.
+        + destruct (existsb is_reject ev1).
+          * split; [exact R'|reflexivity].
+          * apply next_sim; assumption.
         + split; [exact R'|reflexivity].
     Qed.
 
@@ -439,6 +442,7 @@ Module RouterExamples.
   Definition P (i : nat) (incl : list nat) : disp nat nat (list (nat * nat)) nat :=
     Prim (fun s => existsb (Nat.eqb s) incl) (fun a st => Some (st ++ [(i, a)], [i])).
   Definition sg (a : nat) : nat := a.
+  Definition norej (e : nat) : bool := false.      (* no event is a rejection *)
 
   (* 0 listens to 1 and 7; 1 listens to 1, and whenever it handled 1 it makes the router dispatch 7;
      2 listens to 7 *)
@@ -447,12 +451,12 @@ Module RouterExamples.
   (* dispatching 1 runs 0, then 1, then (re-entrantly, signature 7) 0 and 2; 7 is cached by the
      nested dispatch before 1 is; the second dispatch of 1 is a hit *)
   Example nontrivial_dispatch :
-    serve_c nat nat (list (nat * nat)) nat Nat.eqb sg 5 (built nat nat _ nat ds3)
+    serve_c nat nat (list (nat * nat)) nat Nat.eqb sg norej 5 (built nat nat _ nat ds3)
             (calls nat nat _ nat [(1, []); (1, []); (7, [])]) =
     [Some ([(0, 1); (1, 1); (0, 7); (2, 7)], [0; 1; 0; 2]);
      Some ([(0, 1); (1, 1); (0, 7); (2, 7)], [0; 1; 0; 2]);
      Some ([(0, 7); (2, 7)], [0; 2])] /\
-    rc (fst (run_ops nat nat _ nat Nat.eqb sg 5 (built nat nat _ nat ds3)
+    rc (fst (run_ops nat nat _ nat Nat.eqb sg norej 5 (built nat nat _ nat ds3)
                                   (calls nat nat _ nat [(1, [])]))) = [(1, [0; 1]); (7, [0; 2])].
   Proof. vm_compute. split; reflexivity. Qed.
 
@@ -461,16 +465,24 @@ Module RouterExamples.
      and the cache-free router differ; this is why the theorems require install-before-dispatch *)
   Example late_install_is_stale :
     let ops := [Install (P 0 [1; 7]); Dispatch 1 []; Install (P 3 [1; 7]); Dispatch 1 []; Dispatch 7 []] in
-    serve_c nat nat (list (nat * nat)) nat Nat.eqb sg 5 (new_router nat nat _ nat) ops =
+    serve_c nat nat (list (nat * nat)) nat Nat.eqb sg norej 5 (new_router nat nat _ nat) ops =
       [Some ([(0, 1)], [0]); Some ([(0, 1)], [0]); Some ([(0, 7); (3, 7)], [0; 3])] /\
-    serve_nc nat nat (list (nat * nat)) nat Nat.eqb sg 5 [] ops =
+    serve_nc nat nat (list (nat * nat)) nat Nat.eqb sg norej 5 [] ops =
       [Some ([(0, 1)], [0]); Some ([(0, 1); (3, 1)], [0; 3]); Some ([(0, 7); (3, 7)], [0; 3])].
   Proof. vm_compute. split; reflexivity. Qed.
+
+  (* the same router when the event of dispatcher 1 counts as a rejection: its follower (the re-entrant
+     dispatch of 7) does not run -- TandemDispatcher returns a rejected base answer as it is *)
+  Example rejected_base_skips_followers :
+    serve_c nat nat (list (nat * nat)) nat Nat.eqb sg (Nat.eqb 1) 5 (built nat nat _ nat ds3)
+            (calls nat nat _ nat [(1, []); (7, [])]) =
+    [Some ([(0, 1); (1, 1)], [0; 1]); Some ([(0, 7); (2, 7)], [0; 2])].
+  Proof. vm_compute. reflexivity. Qed.
 
   (* out of fuel (unbounded re-entrance) both routers raise *)
   Example both_raise :
     let loop := [Tandem (P 0 [1]) [Ctx 1 1]] in
-    serve_c nat nat (list (nat * nat)) nat Nat.eqb sg 9 (built nat nat _ nat loop) (calls nat nat _ nat [(1, [])]) = [None] /\
-    serve_nc nat nat (list (nat * nat)) nat Nat.eqb sg 9 loop (calls nat nat _ nat [(1, [])]) = [None].
+    serve_c nat nat (list (nat * nat)) nat Nat.eqb sg norej 9 (built nat nat _ nat loop) (calls nat nat _ nat [(1, [])]) = [None] /\
+    serve_nc nat nat (list (nat * nat)) nat Nat.eqb sg norej 9 loop (calls nat nat _ nat [(1, [])]) = [None].
   Proof. vm_compute. split; reflexivity. Qed.
 End RouterExamples.
